@@ -357,15 +357,20 @@ Proof.
 Qed.
 
 (** * The pool built for one (pool, user) from an accepted pool section *)
-Definition explicit (p : pool) (u : user) (sl : list (Z * (str * shard))) (dr : option role) : built :=
+Definition explicit (c : config) (p : pool) (u : user) (sl : list (Z * (str * shard))) (dr : option role) : built :=
   {| bp_db := p_name p; bp_user := u_name u;
-     bp_databases := map (map (mk_pool u)) (map row_of sl);
+     bp_databases := map (map (mk_pool c p u)) (map row_of sl);
      bp_addresses := map row_of sl;
      bp_banlist := map (fun _ => tt) (map row_of sl);
      bp_settings_shards := length (p_shards p);
      bp_default_shard := p_default_shard p;
      bp_default_role := dr;
-     bp_pool_size := u_pool_size u |}.
+     bp_pool_size := u_pool_size u;
+     bp_pool_mode := match u_pool_mode u with Some m => m | None => p_pool_mode p end;
+     bp_plugins := match p_plugins p with Some x => Some x | None => g_plugins c end;
+     bp_user_cfg := u;
+     bp_auto_key := option_map unquote (p_auto_key p);
+     bp_parser := p_parser p; bp_rw_split := p_rw_split p |}.
 
 Lemma default_shard_ok : forall p, pool_validate p = true ->
   match p_default_shard p with DShard d => d < Z.of_nat (length (p_shards p)) | _ => True end.
@@ -376,7 +381,7 @@ Proof.
   destruct (_ || negb (check_enum 0 (isortZ l))); [discriminate|].
   destruct (regex_bad (p_shard_regex p) || regex_bad (p_key_regex p)); [discriminate|].
   destruct (p_rw_split p && negb (p_parser p)); [discriminate|].
-  destruct (p_plugins p && negb (p_parser p)); [discriminate|].
+  destruct (has_plugins p && negb (p_parser p)); [discriminate|].
   destruct (negb (auto_key_ok (p_auto_key p))); [discriminate|].
   destruct (is_some_zero (p_connect_timeout p) || is_some_zero (p_idle_timeout p) || is_some_zero (p_server_lifetime p)); [discriminate|].
   destruct (p_default_shard p) as [d| |]; try exact I.
@@ -385,11 +390,11 @@ Proof.
 Qed.
 
 Section Explicit.
-  Variables (p : pool) (u : user) (sl : list (Z * (str * shard))) (dr : option role).
+  Variables (c : config) (p : pool) (u : user) (sl : list (Z * (str * shard))) (dr : option role).
   Hypothesis F : pool_facts p sl.
   Hypothesis DS : match p_default_shard p with DShard d => 0 <= d < Z.of_nat (length (p_shards p)) | _ => True end.
   Hypothesis MT : Forall (fun ks => Forall (fun m => 0 <= mi_target m) (sh_mirrors (snd ks))) (p_shards p).
-  Let bp := explicit p u sl dr.
+  Let bp := explicit c p u sl dr.
   Let n := length (p_shards p).
 
   Lemma ex_shards : shards bp = n.
@@ -410,7 +415,7 @@ Section Explicit.
     destruct (ex_row _ _ R) as [zk [Hz [Hr Hf]]]. subst row. unfold row_of in H.
     destruct (build_servers_nth _ _ _ _ _ _ _ H) as [H1 [H2 _]].
     repeat split; [congruence|exact H2|].
-    exists (mk_pool u a). split; [|reflexivity].
+    exists (mk_pool c p u a). split; [|reflexivity].
     unfold pool_state_at. cbn [bp explicit bp_databases]. cbn [bp explicit bp_addresses] in R.
     rewrite nth_error_map, R. cbn [option_map]. rewrite nth_error_map.
     unfold row_of. rewrite H. reflexivity.
@@ -551,6 +556,24 @@ Section Explicit.
       rewrite G, B, T. reflexivity.
   Qed.
 
+  Lemma explicit_settings : builder_check c p u = None -> settings_ok c p u bp.
+  Proof.
+    intro BC. unfold settings_ok. cbn [bp explicit bp_pool_mode bp_plugins bp_user_cfg bp_pool_size bp_auto_key bp_parser bp_rw_split bp_databases].
+    repeat (split; [reflexivity|]).
+    intros row b Hrow Hb. apply in_map_iff in Hrow. destruct Hrow as [r0 [E _]]. subst row.
+    apply in_map_iff in Hb. destruct Hb as [a [E _]]. subst b.
+    cbn [mk_pool b_max_size b_min_idle b_connect_timeout b_idle_timeout b_max_lifetime].
+    unfold builder_check in BC.
+    destruct (u_pool_size u =? 0) eqn:E0; [discriminate|].
+    destruct (eff (u_connect_timeout u) (p_connect_timeout p) (g_connect_timeout c) =? 0) eqn:E1; [discriminate|].
+    destruct (eff (u_idle_timeout u) (p_idle_timeout p) (g_idle_timeout c) =? 0) eqn:E2; [discriminate|].
+    destruct (eff (u_server_lifetime u) (p_server_lifetime p) (g_server_lifetime c) =? 0) eqn:E3; [discriminate|].
+    apply Z.eqb_neq in E0, E1, E2, E3.
+    repeat (split; [first [reflexivity|assumption]|]).
+    split; [|repeat split; assumption].
+    intros m Hm. rewrite Hm in BC. destruct (u_pool_size u <? m) eqn:L; [discriminate|]. apply Z.ltb_ge in L. exact L.
+  Qed.
+
   Lemma explicit_servable : servable p bp.
   Proof.
     unfold servable. fold n.
@@ -594,7 +617,7 @@ Proof.
   destruct (_ || negb (check_enum 0 (isortZ l))); [discriminate|].
   destruct (regex_bad (p_shard_regex p) || regex_bad (p_key_regex p)) eqn:RX; [discriminate|].
   destruct (p_rw_split p && negb (p_parser p)); [discriminate|].
-  destruct (p_plugins p && negb (p_parser p)); [discriminate|].
+  destruct (has_plugins p && negb (p_parser p)); [discriminate|].
   destruct (negb (auto_key_ok (p_auto_key p))); [discriminate|].
   destruct (is_some_zero (p_connect_timeout p) || is_some_zero (p_idle_timeout p) || is_some_zero (p_server_lifetime p)) eqn:T; [discriminate|].
   destruct (match p_default_shard p with DShard n => _ | _ => false end); [discriminate|].
@@ -620,7 +643,8 @@ Qed.
 
 Lemma build_pool_user_ok : forall c p u, general_ok c -> pool_validate p = true -> small_pool p ->
   typed_pool p -> auth_check p = None -> user_validate u = true ->
-  exists sl dr, build_pool_user c p u = Built (explicit p u sl dr) /\ pool_facts p sl /\ servable p (explicit p u sl dr).
+  exists sl dr, build_pool_user c p u = Built (explicit c p u sl dr) /\ pool_facts p sl /\ servable p (explicit c p u sl dr) /\
+    settings_ok c p u (explicit c p u sl dr).
 Proof.
   intros c p u G V S T AQ U.
   destruct (pool_validate_facts p V S) as [sl F].
@@ -630,7 +654,7 @@ Proof.
   assert (DS : match p_default_shard p with DShard d => 0 <= d < Z.of_nat (length (p_shards p)) | _ => True end).
   { pose proof (default_shard_ok p V) as D. destruct T as [T _].
     destruct (p_default_shard p) as [d| |]; try exact I. split; assumption. }
-  split; [|split; [exact F|apply explicit_servable; [exact F|exact DS|exact (proj2 T)]]].
+  split; [|split; [exact F|split; [apply explicit_servable; [exact F|exact DS|exact (proj2 T)]|apply explicit_settings; apply (builder_check_none c p u G PS U)]]].
   unfold build_pool_user. destruct (pf_sorted _ _ F) as [kl [K [E L]]]. rewrite K, <- E.
   unfold server_check. rewrite AQ.
   rewrite (builder_check_none c p u G PS U), (build_shards_ok sl (pf_keys _ _ F)), DR.
@@ -663,12 +687,14 @@ Proof.
     apply filter_In. split; [exact Hin|]. rewrite E. reflexivity.
 Qed.
 
+Definition srv (c0 : config) (p : pool) (u : user) (bp : built) : Prop := servable p bp /\ settings_ok c0 p u bp.
+
 Lemma build_users_inv : forall c0 p us acc,
   general_ok c0 -> pool_validate p = true -> small_pool p -> typed_pool p -> auth_check p = None ->
   (forall ku, In ku us -> user_validate (snd ku) = true) ->
   exists acc', build_users c0 p us acc = Built acc' /\
     (forall bp, In bp acc' -> In bp acc \/
-        exists ku, In ku us /\ has_id (p_name p) (u_name (snd ku)) bp /\ servable p bp) /\
+        exists ku, In ku us /\ has_id (p_name p) (u_name (snd ku)) bp /\ srv c0 p (snd ku) bp) /\
     (forall db usr, (exists x, In x acc /\ has_id db usr x) \/
                     (db = p_name p /\ exists ku, In ku us /\ usr = u_name (snd ku)) ->
                     exists x, In x acc' /\ has_id db usr x).
@@ -678,7 +704,7 @@ Proof.
     intros db usr [H|[_ [ku [[] _]]]]. exact H.
   - destruct (build_pool_user_ok c0 p (snd ku) G V S T AQ (U ku (or_introl eq_refl))) as [sl [dr [B [_ SV]]]].
     rewrite B.
-    destruct (IH (insert_pool (explicit p (snd ku) sl dr) acc) G V S T AQ (fun k Hk => U k (or_intror Hk)))
+    destruct (IH (insert_pool (explicit c0 p (snd ku) sl dr) acc) G V S T AQ (fun k Hk => U k (or_intror Hk)))
       as [acc' [E [I1 I2]]].
     exists acc'. split; [exact E|]. split.
     + intros bp Hbp. destruct (I1 bp Hbp) as [H|[k [Hk [Hid Hs]]]].
@@ -697,7 +723,7 @@ Lemma build_pools_inv : forall c0 ps acc,
   (forall p, In p ps -> pool_validate p = true /\ small_pool p /\ typed_pool p /\ auth_check p = None) ->
   exists acc', build_pools c0 ps acc = Built acc' /\
     (forall bp, In bp acc' -> In bp acc \/
-        exists p ku, In p ps /\ In ku (p_users p) /\ has_id (p_name p) (u_name (snd ku)) bp /\ servable p bp) /\
+        exists p ku, In p ps /\ In ku (p_users p) /\ has_id (p_name p) (u_name (snd ku)) bp /\ srv c0 p (snd ku) bp) /\
     (forall db usr, (exists x, In x acc /\ has_id db usr x) \/
                     (exists p ku, In p ps /\ In ku (p_users p) /\ db = p_name p /\ usr = u_name (snd ku)) ->
                     exists x, In x acc' /\ has_id db usr x).
@@ -729,6 +755,7 @@ Proof.
   destruct (g_auth_query c && _); [discriminate|].
   destruct ((g_connect_timeout c =? 0) || (g_idle_timeout c =? 0) || (g_server_lifetime c =? 0)) eqn:T; [discriminate|].
   destruct (existsb pool_auth_bad (c_pools c)); [discriminate|].
+  destruct (negb (tls_ok c)); [discriminate|].
   apply orb_false_iff in T. destruct T as [T T3]. apply orb_false_iff in T. destruct T as [T1 T2].
   split; [repeat split; assumption|]. intros p Hp. rewrite forallb_forall in H. apply H. exact Hp.
 Qed.
@@ -756,7 +783,7 @@ Proof.
   exists pools. split; [exact E|]. split.
   - intros bp Hbp. destruct (I1 bp Hbp) as [[]|[p' [ku [Hp [Hku [[Hd Hu] Hs]]]]]].
     cbn [fill_up c_pools] in Hp. apply in_map_iff in Hp. destruct Hp as [p [Ep Hp]]. subst p'.
-    exists p, ku. split; [exact Hp|]. split; [exact Hku|]. split; [exact Hd|]. split; [exact Hu|exact Hs].
+    exists p, ku. split; [exact Hp|]. split; [exact Hku|]. split; [exact Hd|]. split; [exact Hu|]. destruct Hs as [Hs1 Hs2]. split; [exact Hs1|exact Hs2].
   - intros p ku Hp Hku.
     destruct (I2 (p_name p) (u_name (snd ku))) as [x [Hx [Hd Hu]]].
     { right. exists (fill_pool c p), ku. split; [cbn [fill_up c_pools]; apply in_map; exact Hp|].
@@ -837,6 +864,7 @@ Proof.
   destruct (g_auth_query (fill_up c) && _); [reflexivity|].
   destruct (_ || (g_server_lifetime (fill_up c) =? 0)); [reflexivity|].
   destruct (existsb pool_auth_bad (c_pools (fill_up c))); [reflexivity|].
+  destruct (negb (tls_ok (fill_up c))); [reflexivity|].
   apply (forallb_false _ _ _ (fill_pool c p)); [cbn [fill_up c_pools]; apply in_map; exact Hin|exact H].
 Qed.
 
@@ -1001,7 +1029,7 @@ Qed.
 (* pool-level settings *)
 Lemma reject_pool_settings : forall p,
   regex_bad (p_shard_regex p) = true \/ regex_bad (p_key_regex p) = true \/
-  (p_rw_split p = true /\ p_parser p = false) \/ (p_plugins p = true /\ p_parser p = false) \/
+  (p_rw_split p = true /\ p_parser p = false) \/ (has_plugins p = true /\ p_parser p = false) \/
   auto_key_ok (p_auto_key p) = false \/
   p_connect_timeout p = Some 0 \/ p_idle_timeout p = Some 0 \/ p_server_lifetime p = Some 0 ->
   pool_validate p = false.
@@ -1012,7 +1040,7 @@ Proof.
   destruct (_ || negb (check_enum 0 (isortZ l))); [reflexivity|].
   destruct (regex_bad (p_shard_regex p)) eqn:R1; [reflexivity|].
   destruct (regex_bad (p_key_regex p)) eqn:R2; [reflexivity|]. cbn [orb].
-  destruct (p_rw_split p) eqn:RW; destruct (p_parser p) eqn:PA; destruct (p_plugins p) eqn:PL; cbn [andb negb];
+  destruct (p_rw_split p) eqn:RW; destruct (p_parser p) eqn:PA; destruct (has_plugins p) eqn:PL; cbn [andb negb];
     try reflexivity;
     destruct (auto_key_ok (p_auto_key p)) eqn:AK; cbn [negb]; try reflexivity;
     (destruct H as [H|[H|[[H H']|[[H H']|[H|H]]]]]; try discriminate;
@@ -1061,4 +1089,48 @@ Proof.
   - destruct (parse_usize r) as [n|] eqn:P; [|discriminate]. inversion H; subst.
     apply parse_usize_range in P. lia.
   - destruct (str_eqb s s_random); [discriminate|]. destruct (str_eqb s s_random_healthy); discriminate.
+Qed.
+
+(** * TLS options: a loadable certificate/key pair changes nothing else *)
+Lemma accept_tls : forall c, accept c = tls_ok c && accept (without_tls c).
+Proof.
+  intro c. unfold accept, config_validate.
+  change (tls_ok (fill_up c)) with (tls_ok c).
+  change (tls_ok (fill_up (without_tls c))) with true.
+  change (g_auth_query (fill_up (without_tls c))) with (g_auth_query (fill_up c)).
+  change (g_auth_user (fill_up (without_tls c))) with (g_auth_user (fill_up c)).
+  change (g_auth_password (fill_up (without_tls c))) with (g_auth_password (fill_up c)).
+  change (g_connect_timeout (fill_up (without_tls c))) with (g_connect_timeout (fill_up c)).
+  change (g_idle_timeout (fill_up (without_tls c))) with (g_idle_timeout (fill_up c)).
+  change (g_server_lifetime (fill_up (without_tls c))) with (g_server_lifetime (fill_up c)).
+  change (c_pools (fill_up (without_tls c))) with (c_pools (fill_up c)).
+  destruct (g_auth_query (fill_up c) && _); [rewrite andb_false_r; reflexivity|].
+  destruct (_ || (g_server_lifetime (fill_up c) =? 0)); [rewrite andb_false_r; reflexivity|].
+  destruct (existsb pool_auth_bad (c_pools (fill_up c))); [rewrite andb_false_r; reflexivity|].
+  destruct (tls_ok c); reflexivity.
+Qed.
+
+Lemma tls_pair_independent : forall c, g_tls_cert c = Some true -> g_tls_key c = Some true ->
+  accept c = accept (without_tls c).
+Proof. intros c H1 H2. rewrite accept_tls. unfold tls_ok. rewrite H1, H2. reflexivity. Qed.
+
+Lemma tls_key_alone_independent : forall c, g_tls_cert c = None -> accept c = accept (without_tls c).
+Proof. intros c H1. rewrite accept_tls. unfold tls_ok. rewrite H1. reflexivity. Qed.
+
+Lemma reject_tls : forall c,
+  g_tls_cert c = Some false \/
+  (g_tls_cert c = Some true /\ (g_tls_key c = None \/ g_tls_key c = Some false)) -> accept c = false.
+Proof.
+  intros c H. rewrite accept_tls. unfold tls_ok.
+  destruct H as [H|[H [K|K]]]; rewrite H; try rewrite K; reflexivity.
+Qed.
+
+Lemma built_settings : forall c pools, accept c = true -> small c -> typed c -> build c = Built pools ->
+  forall bp, In bp pools ->
+  exists p ku, In p (c_pools c) /\ In ku (p_users p) /\ bp_db bp = p_name p /\ bp_user bp = u_name (snd ku) /\
+               settings_ok c p (snd ku) bp.
+Proof.
+  intros c pools A S T B bp Hbp. destruct (accepted_servable c A S T) as [pools' [B' [G _]]].
+  rewrite B in B'. inversion B'; subst pools'. destruct (G bp Hbp) as [p [ku [H1 [H2 [H3 [H4 [_ H6]]]]]]].
+  exists p, ku. split; [exact H1|]. split; [exact H2|]. split; [exact H3|]. split; [exact H4|exact H6].
 Qed.
